@@ -224,6 +224,15 @@ func (r *replayer) run() error {
 					continue
 				}
 				if resp.Fatal != "" {
+					if strings.Contains(resp.Fatal, "runtime error") {
+						// the code under test panicked where the model has an ordinary step: that is a
+						// mismatch between code and model (reproduced in a fresh process), not a tool failure
+						if _, err2 := confirmRaw(r.drv, rq); err2 != nil && strings.Contains(err2.Error(), "runtime error") {
+							r.c.Violate(fmt.Sprintf("panic-in-code/%s/%s", r.c.Prop, opsString(path)),
+								fmt.Sprintf("the real container panics (%s) on a history the model allows: path %s then one of %d operations", resp.Fatal, opsString(path), len(eops)), rq)
+							continue
+						}
+					}
 					errs <- fmt.Errorf("driver: %s", resp.Fatal)
 					failed = true
 					continue
@@ -285,6 +294,23 @@ func (r *replayer) run() error {
 		return opsString(a.Path)+a.Op.String() < opsString(b.Path)+b.Op.String()
 	})
 	return nil
+}
+
+// confirmRaw re-runs a request in a fresh driver process and returns the driver's fatal text as error.
+func confirmRaw(drv string, rq any) (*drvResp, error) {
+	p, err := core.StartProc(drv, nil)
+	if err != nil {
+		return nil, err
+	}
+	defer p.Close()
+	var resp drvResp
+	if err := p.Call(rq, &resp); err != nil {
+		return nil, err
+	}
+	if resp.Fatal != "" {
+		return &resp, fmt.Errorf("driver: %s", resp.Fatal)
+	}
+	return &resp, nil
 }
 
 // confirm re-runs a single-edge request in a fresh driver process.
